@@ -3018,8 +3018,9 @@ class Entity(MutableMapping[str, str]):
             return
         key = key.casefold()
         if key == 'targetname':
-            _remove_copyset(self.map.by_target, self._keys.get('targetname', None), self)
-            self.map.by_target[None].add(self)
+            _remove_copyset(self.map.by_target, self['targetname'].casefold() or None, self)
+            if self in self.map.entities or self is self.map.spawn:
+                self.map.by_target[None].add(self)
 
         if key == 'classname':
             raise KeyError('Classnames cannot be deleted!')
